@@ -54,7 +54,7 @@ func (lf *LineFormat) Process(ts otelstorage.Timestamp, line string, set LabelSe
 	lf.line = line
 	lf.buf.Reset()
 
-	if err := lf.tmpl.Execute(lf.buf, set.AsMap()); err != nil {
+	if err := executeTemplate(lf.tmpl, lf.buf, set.AsMap()); err != nil {
 		set.SetError("template error", err)
 		return line, true
 	}
